@@ -60,6 +60,7 @@ type FieldOpt struct {
 	Freq0  bool   `json:"freq0,omitempty"` // skip freq/norm: frequency 0
 	Multi  bool   `json:"multi,omitempty"` // may occur several times per document
 	LongAP bool   `json:"longap,omitempty"`
+	Geo    bool   `json:"geo,omitempty"` // instances carry an encoded shape (extra doc value)
 }
 
 type VecOpt struct {
@@ -112,6 +113,7 @@ func GenSchema(t *rapid.T, o SchemaOpts) *Schema {
 		f.Multi = Chance(t, fl+"multi", 35)
 		f.Freq0 = !o.NoFreq0 && Chance(t, fl+"freq0", 20)
 		f.LongAP = Chance(t, fmt.Sprintf("fieldLongAP%d", i), 10)
+		f.Geo = Chance(t, fl+"geo", 12)
 		s.Fields = append(s.Fields, f)
 	}
 	if o.ForceDV {
@@ -197,7 +199,14 @@ func (s *Schema) genTextField(t *rapid.T, fo *FieldOpt, label string, instance i
 			f.Value = rapid.SliceOfN(rapid.Byte(), 0, 12).Draw(t, label+"val")
 		}
 	}
-	nTok := rapid.IntRange(0, min(4, len(s.Terms))).Draw(t, label+"nTok")
+	if fo.Geo {
+		f.Shape = append([]byte("\x01shape"), rapid.SliceOfN(rapid.ByteRange(0, 0xfe), 0, 5).Draw(t, label+"shape")...)
+	}
+	minTok := 0
+	if fo.Geo {
+		minTok = 1 // a shape always yields index tokens in bleve's spatial analysis
+	}
+	nTok := rapid.IntRange(minTok, min(4, len(s.Terms))).Draw(t, label+"nTok")
 	terms := rapid.SliceOfNDistinct(rapid.SampledFrom(s.Terms), nTok, nTok, rapid.ID[string]).Draw(t, label+"terms")
 	total := 0
 	for i, term := range terms {
